@@ -24,7 +24,8 @@ var utcTimeZone = time.FixedZone("GMT", 0)
 func builtinDate(call FunctionCall) Value {
 	date := &dateObject{}
 	date.Set(newDateTime([]Value{}, time.Local)) //nolint:gosmopolitan
-	return stringValue(date.Time().Format(builtinDateDateTimeLayout))
+	// The same text as new Date().toString() (15.9.2.1).
+	return stringValue(date.Time().Local().Format(builtinDateDateTimeLayout)) //nolint:gosmopolitan
 }
 
 func builtinNewDate(obj *object, argumentList []Value) Value {
